@@ -31,7 +31,10 @@ CHECKS = {
          "threads done they form an interleaving (C02_workers_trace_interleaving), bounded work (C02_workers_terminate), and "
          "end to end C02_threading_workers_end_to_end / C02_openmp_workers_end_to_end: whatever the schedule of the threads' "
          "steps, the memory holds the sequential result. Correspondence X-sched-det: the real worker loop of ndl.ndl driven "
-         "turn by turn by chosen schedules, step-aligned with the Coq machine (model 205). Partial: real preemption, the GIL, "
+         "turn by turn by chosen schedules, step-aligned with the Coq machine (model 205) or, when the code does not follow the "
+         "lock protocol, with the machine of the lock-free protocol (QueueNowait, model 206: get_nowait until queue.Empty; "
+         "C02_nowait_is_a_lock_run transfers every for-all-schedules theorem, C02_nowait_quiet / _take_is_atomic show the "
+         "machine is the intended one, C02_nowait_workers_end_to_end). Partial: real preemption, the GIL, "
          "libgomp and the memory model are observed (amplified runs + deadline), not modelled. Source-derived: "
          "SRC_slice_list_computes_model / _partition / _rejects_small_n about the MiniPy term translated from the current "
          "source of ndl.slice_list. Checked assumption: every variable the prange loop of the generated C writes is private.",
